@@ -9,6 +9,7 @@ def nameOut (mid : Bytes) (r : Option Name) : String :=
   match r with
   | none => "none"
   | some n => "some " ++ hexOfBytes n.1 ++ " " ++ hexOfBytes n.2 ++ " " ++ hexOfBytes (displayName mid n)
+      ++ (if parseName mid (displayName mid n) == some n then " 1" else " 0")
 
 def pairsOut (ds : List Deliv) : String :=
   joinList (ds.map (fun d => toString d.ack ++ "/" ++ toString d.msg.id)) ","
